@@ -53,6 +53,30 @@ pub fn osstring_eq_osstr(a: &OsString, b: &OsStr) -> (r: bool) ensures r == (a@ 
 #[verifier::external_body]
 pub fn osstring_clone(a: &OsString) -> (r: OsString) ensures r@ == a@ { unimplemented!() }
 
+pub proof fn lemma_all_ok_strip(s: Seq<EntryV<OwnedFd>>)
+    requires all_ok(s)
+    ensures all_ok(strip_tail(s))
+    decreases s.len()
+{
+    if s.len() > 0 && s[s.len() - 1].parts.len() == 0 {
+        assert forall|i: int| 0 <= i < s.drop_last().len() implies lineage((#[trigger] s.drop_last()[i]).dir.id()) && cloexec(s.drop_last()[i].dir.id()) by {
+            assert(s.drop_last()[i] == s[i]);
+        }
+        lemma_all_ok_strip(s.drop_last());
+    }
+}
+/// popping a recorded component (and dropping finished links) never changes which directories are saved
+pub proof fn lemma_all_ok_pop(s: Seq<EntryV<OwnedFd>>, part: Seq<u8>)
+    requires all_ok(s)
+    ensures ss_pop(s, part) matches PopV::Popped(s2) ==> all_ok(s2) && all_ok(strip_tail(s2))
+{
+    if let PopV::Popped(s2) = ss_pop(s, part) {
+        assert forall|i: int| 0 <= i < s2.len() implies lineage((#[trigger] s2[i]).dir.id()) && cloexec(s2[i].dir.id()) by {
+            assert(s2[i].dir == s[i].dir);
+        }
+        lemma_all_ok_strip(s2);
+    }
+}
 pub mod ss_lemmas {
     use vstd::prelude::*;
     /// mapping commutes with taking a sub-range (the view of the stack after VecDeque::pop_back / pop_front;
